@@ -232,9 +232,17 @@ pub fn check_formatted(img: &Store, q: &FmtReq, clock: &crate::clock::SimClock) 
 }
 
 pub fn draw_req(r: &mut Rng) -> FmtReq {
-    let bps = *r.pick(&[512u16, 512, 1024, 2048, 4096]);
+    // the options builder accepts any power-of-two sector size >= 512 and any power-of-two cluster size >= 512,
+    // also combinations that cannot be satisfied (sector > 4096, cluster smaller than the sector)
+    let bps = if r.chance(1, 25) { *r.pick(&[8192u16, 16384, 32768]) } else { *r.pick(&[512u16, 512, 1024, 2048, 4096]) };
     let sh_max = if r.chance(1, 10) { 12 } else { 8 };
-    let bpc: Option<u32> = if r.chance(1, 3) { None } else { Some(u32::from(bps) << r.below(sh_max)) };
+    let bpc: Option<u32> = if r.chance(1, 3) {
+        None
+    } else if r.chance(1, 12) {
+        Some(512u32 << r.below(12))
+    } else {
+        Some((u32::from(bps) << r.below(sh_max)).max(512))
+    };
     let fat: Option<u8> = match r.below(6) {
         0 => Some(12),
         1 => Some(16),
@@ -271,7 +279,7 @@ pub fn draw_req(r: &mut Rng) -> FmtReq {
     let per_sec = (bps / 32) as u32;
     let root: Option<u16> = match r.below(8) {
         0 => None,
-        1 => Some(1),
+        1 => Some(if r.chance(1, 2) { 0 } else { 1 }),
         2 => Some((per_sec + 1) as u16),
         3 => Some(65535),
         4 => Some(r.range(1, 3000) as u16),
